@@ -277,8 +277,18 @@ def check_effects(run, fx, cg):
             if c.path in MUTATORS:
                 mut_sites.append((f, c))
     where = sorted({f.path for f, _ in mut_sites})
-    run.check(where == [PROVIDER + "::get"], rule, "mutators", "interior mutation only in FsTzdbProvider::get",
+    # FsTzdbProvider::get, or a private helper introduced after the baseline that get() itself calls (the memo moved
+    # into it with an extract-function refactoring)
+    from .. import baseline
+    getf = cg.fns.get(PROVIDER + "::get")
+    helpers = set()
+    if getf is not None:
+        helpers = {p for p in cg.closure({getf.path}) if p.startswith("temporal_rs::tzdb::") and baseline.is_new(p)}
+    allowed = {PROVIDER + "::get"} | helpers
+    run.check(bool(where) and set(where) <= allowed, rule, "mutators", "interior mutation only in FsTzdbProvider::get%s" %
+              (" (through its new helper %s)" % sorted(helpers) if helpers & set(where) else ""),
               "interior mutation reachable from the provider methods in %s (expected only FsTzdbProvider::get)" % where)
+    memo_fn = next((f for f, _ in mut_sites if f.path in helpers), None)
     # static mut / statics with interior mutability reachable
     for p in clo:
         f = cg.fns.get(p)
@@ -304,6 +314,8 @@ def check_effects(run, fx, cg):
     if g is None:
         run.anchor_missing(rule, "get", "FsTzdbProvider::get not found")
         return
+    if memo_fn is not None:
+        g = memo_fn              # the memo lives in the helper: its body is what the checks below read
     ev = H.Evaluator(fx)
     ev.inline = lambda p: False
     ev.call_fn(g, [H.Sym("param", (p["name"],)) for p in g.params])
